@@ -220,7 +220,7 @@ Fixpoint prefix_eqb (bs l : list Z) : bool :=
   | _ :: _, [] => false
   end.
 Definition at_ (img : list Z) (off : Z) (bs : list Z) : bool :=
-  (0 <=? off) && prefix_eqb bs (skipn (Z.to_nat off) img).
+  (0 <=? off) && prefix_eqb bs (drop off img).
 
 (* consecutive table entries: record i sits at i * stride from the start of [l]
    (one pass over the table; Proofs/C01Proofs.v table_at_nth gives the pointwise reading
@@ -234,7 +234,7 @@ Fixpoint table_at (l : list Z) (stride : nat) (recs : list (list Z)) : bool :=
 (* a record of layout L can be read at [off] *)
 Definition readable (img : list Z) (off : Z) (L : layout) : bool :=
   (0 <=? off) && (off <? zlen img) &&
-  match decode_layout L (skipn (Z.to_nat off) img) with Some _ => true | None => false end.
+  match decode_layout L (drop off img) with Some _ => true | None => false end.
 
 Definition zero_shdr : shdr_spec :=
   {| sh_name := 0; sh_type := 0; sh_flags := 0; sh_addr := 0; sh_offset := 0; sh_size := 0;
@@ -254,7 +254,7 @@ Definition sections_ok (img : list Z) (s : image_spec) : bool :=
   (n_sections s =? 0) ||
   ((shdr_size s <=? e_shentsize (i_ehdr s)) && (0 <=? e_shoff (i_ehdr s)) &&
    forallb (fun x => fits_layout (L_shdr s) (shdr_vals (snd x))) (i_sections s) &&
-   table_at (skipn (Z.to_nat (e_shoff (i_ehdr s))) img) (Z.to_nat (e_shentsize (i_ehdr s)))
+   table_at (drop (e_shoff (i_ehdr s)) img) (Z.to_nat (e_shentsize (i_ehdr s)))
             (map (fun x => encode_shdr s (snd x)) (i_sections s))).
 
 (* ---- program header j sits at e_phoff + j * e_phentsize; e_phentsize >= the standard size *)
@@ -262,7 +262,7 @@ Definition segments_ok (img : list Z) (s : image_spec) : bool :=
   (n_segments s =? 0) ||
   ((phdr_size s <=? e_phentsize (i_ehdr s)) && (0 <=? e_phoff (i_ehdr s)) &&
    forallb (fun p => fits_layout (L_phdr s) (phdr_vals (i_is64 s) p)) (i_segments s) &&
-   table_at (skipn (Z.to_nat (e_phoff (i_ehdr s))) img) (Z.to_nat (e_phentsize (i_ehdr s)))
+   table_at (drop (e_phoff (i_ehdr s)) img) (Z.to_nat (e_phentsize (i_ehdr s)))
             (map (encode_phdr s) (i_segments s))).
 
 (* ---- counts and the name-table index, with the three extended-numbering escapes
